@@ -324,7 +324,7 @@ def fragments(prog: Program, f: Func, expr: ast.AST, depth: int = 14, _seen: fro
         res, seen_t = [], set()
         for fr in out:
             k = (fr.kind, fr.text)
-            if k not in seen_t:
+            if fr.kind != "dyn" or k not in seen_t:
                 seen_t.add(k)
                 res.append(fr)
         return res
